@@ -244,51 +244,78 @@ func TestC08(t *testing.T) {
 				}
 				synctest.Wait()
 			}
+			known := map[string]string{} // key -> last projection the informer must know
+			// doPut writes a state and, when the monitor can see it as a change (observe), adds the event the
+			// trigger rule demands
+			doPut := func(si int, st c08step, observe bool) {
+				parts := strings.SplitN(st.Key, "/", 2)
+				_, existed := vc.Current(st.Key)
+				s := vc.Put(parts[0], parts[1], st.Lbl, map[string]any{"spec": st.Spec})
+				obj := vlib.BuildCM(parts[0], parts[1], s).Object
+				p1, err1 := c08project(f.Expr, obj)
+				if err1 != nil {
+					inconclusive = fmt.Sprintf("reference jq failed on step %d: %v", si, err1)
+				}
+				typ := "Modified"
+				if !existed {
+					typ = "Added"
+				}
+				prev, had := known[st.Key]
+				changed := !had || prev != p1
+				// cross-check the changed/unchanged verdict with the jq binary
+				if had && f.Expr != "" {
+					pb, errb := c08projectJqBinary(f.Expr, obj)
+					prevObjB := known[st.Key+"#bin"]
+					if errb == nil && (pb != prevObjB) != changed {
+						inconclusive = fmt.Sprintf("gojq and jq 1.6 disagree on whether step %d changes the projection (%q vs %q)", si, p1, pb)
+					}
+					known[st.Key+"#bin"] = pb
+				} else if f.Expr != "" {
+					pb, _ := c08projectJqBinary(f.Expr, obj)
+					known[st.Key+"#bin"] = pb
+				}
+				known[st.Key] = p1
+				if observe && changed && listed[typ] {
+					want = append(want, emitted{typ, "", fmt.Sprint(s.Gen)})
+				}
+				trace = append(trace, fmt.Sprintf("%d put %s gen=%d spec=%s labels=%v -> projection %s (%s, changed=%v)", si, st.Key, s.Gen, vlib.JSON(st.Spec), st.Lbl, p1, typ, changed))
+			}
+			// every third case: objects exist before the monitor is added, and one of them is written again
+			// between AddMonitor (which lists them) and StartMonitor (the informer lists again and reports every
+			// object as Added): that write is a modification of a known object
+			preStart := c.Index%3 == 0
+			var preKeys []string
+			if preStart {
+				for i := 0; i < 1+rng.IntN(2); i++ {
+					k := keys[rng.IntN(len(keys))]
+					doPut(-2, c08step{Op: "put", Key: k, Spec: specs(), Lbl: map[string]string{"l": fmt.Sprint(rng.IntN(2))}}, false)
+					preKeys = append(preKeys, k)
+				}
+				settle()
+			}
 			if err := mgr.AddMonitor(mon); err != nil {
 				inconclusive = "AddMonitor: " + err.Error()
 				cancel()
 				close(done)
 				return
 			}
+			if preStart {
+				k := preKeys[rng.IntN(len(preKeys))]
+				st := c08step{Op: "put", Key: k, Spec: specs(), Lbl: map[string]string{"l": fmt.Sprint(rng.IntN(2))}}
+				if rng.IntN(3) == 0 {
+					st.Lbl["noise"] = "between" // usually outside the projection
+				}
+				doPut(-1, st, true)
+				settle()
+			}
 			mgr.StartMonitor(mon.Metadata.MonitorId)
 			mgr.GetMonitor(mon.Metadata.MonitorId).EnableKubeEventCb()
 			settle()
-			known := map[string]string{} // key -> last projection the informer must know
 			second := false
 			for si, st := range steps {
 				switch st.Op {
 				case "put":
-					parts := strings.SplitN(st.Key, "/", 2)
-					_, existed := vc.Current(st.Key)
-					s := vc.Put(parts[0], parts[1], st.Lbl, map[string]any{"spec": st.Spec})
-					obj := vlib.BuildCM(parts[0], parts[1], s).Object
-					p1, err1 := c08project(f.Expr, obj)
-					if err1 != nil {
-						inconclusive = fmt.Sprintf("reference jq failed on step %d: %v", si, err1)
-					}
-					typ := "Modified"
-					if !existed {
-						typ = "Added"
-					}
-					prev, had := known[st.Key]
-					changed := !had || prev != p1
-					// cross-check the changed/unchanged verdict with the jq binary
-					if had && f.Expr != "" {
-						pb, errb := c08projectJqBinary(f.Expr, obj)
-						prevObjB := known[st.Key+"#bin"]
-						if errb == nil && (pb != prevObjB) != changed {
-							inconclusive = fmt.Sprintf("gojq and jq 1.6 disagree on whether step %d changes the projection (%q vs %q)", si, p1, pb)
-						}
-						known[st.Key+"#bin"] = pb
-					} else if f.Expr != "" {
-						pb, _ := c08projectJqBinary(f.Expr, obj)
-						known[st.Key+"#bin"] = pb
-					}
-					known[st.Key] = p1
-					if changed && listed[typ] {
-						want = append(want, emitted{typ, "", fmt.Sprint(s.Gen)})
-					}
-					trace = append(trace, fmt.Sprintf("%d put %s gen=%d spec=%s labels=%v -> projection %s (%s, changed=%v)", si, st.Key, s.Gen, vlib.JSON(st.Spec), st.Lbl, p1, typ, changed))
+					doPut(si, st, true)
 				case "touch":
 					parts := strings.SplitN(st.Key, "/", 2)
 					ok := vc.Touch(parts[0], parts[1])
